@@ -31,8 +31,8 @@ Proof. exact Neutral.item_val_length_field. Qed.
 Print Assumptions c17_val_length_field.
 
 (* ---------------------------------------------------------------------------------------------- *)
-(* REGENERATED FROM THE SOURCE ON EVERY RUN (tools/gen -> Generated.g_code; Decisions.v) *)
-From GK Require Import GExpr Generated Decisions.
+(* REGENERATED FROM THE SOURCE ON EVERY RUN (tools/gen -> Generated.g_code; DecBase.v, Dec*.v) *)
+From GK Require Import GExpr Generated DecBase DecCallbacks.
 From Coq Require Import String List.
 Import ListNotations.
 
@@ -62,7 +62,7 @@ Theorem c17_callback_wrappers_are_source :
     [SIf [] (GBin "!=" (GVar "s.callbacks.ItemAddRef") GNil) [SExpr (GCall "s.callbacks.ItemAddRef" [GVar "c"; GVar "i"])] []] /\
   body "Store.ItemDecRef" =
     [SIf [] (GBin "!=" (GVar "s.callbacks.ItemDecRef") GNil) [SExpr (GCall "s.callbacks.ItemDecRef" [GVar "c"; GVar "i"])] []].
-Proof. exact Decisions.callback_wrappers. Qed.
+Proof. exact DecCallbacks.callback_wrappers. Qed.
 Print Assumptions c17_callback_wrappers_are_source.
 
 Theorem c17_item_hooks_guarded_are_source :
@@ -70,5 +70,5 @@ Theorem c17_item_hooks_guarded_are_source :
   In (GBin "!=" (GVar "c.store.callbacks.AfterItemRead") GNil) (conds 400 (body "itemLoc.read")) /\
   In ("c.store.callbacks.BeforeItemWrite", [GVar "c"; GVar "iItem"]) (calls_a 400 (body "itemLoc.write")) /\
   In ("c.store.callbacks.AfterItemRead", [GVar "c"; GVar "i"]) (calls_a 400 (body "itemLoc.read")).
-Proof. exact Decisions.item_hooks_guarded. Qed.
+Proof. exact DecCallbacks.item_hooks_guarded. Qed.
 Print Assumptions c17_item_hooks_guarded_are_source.
